@@ -182,11 +182,18 @@ func (m *c02Model) run(hist []int) statespace.Outcome {
 		off += len(l.text) + 1
 		r, err := rules.NewRule(l.text, 1)
 		if err != nil || r == nil {
-			panic(HarnessError("alphabet line does not parse: " + l.text))
+			// every line of the alphabet is well-formed (it parses on the tree the
+			// alphabet was written for): rejecting it loses its rule
+			violate("well-formed-line-is-accepted", map[string]any{"line": l.text}, fmt.Sprintf("NewRule(%q) = %v, %v", l.text, r, err))
+			return statespace.Outcome{Key: "rejected"}
 		}
 		pl := parsedLine{l: l}
 		switch r := r.(type) {
 		case *rules.NetworkRule:
+			if l.s == nil {
+				violate("hosts-line-is-a-host-rule", map[string]any{"line": l.text}, fmt.Sprintf("the hosts-file line %q parses as a network rule", l.text))
+				return statespace.Outcome{Key: "misparsed"}
+			}
 			pl.net = r
 		case *rules.HostRule:
 			pl.host = r
